@@ -20,7 +20,7 @@ import (
 // C12 (3) / C20 (c) — raw frames on a /go-orbit-db/direct-channel stream.
 
 type FrameC12 struct {
-	Prefix  string `json:"prefix"`  // exact | zero | short | long | over | over1 | huge63 | huge64 | ff10 | none | raw
+	Prefix  string `json:"prefix"` // exact | zero | short | long | over | over1 | huge63 | huge64 | ff10 | none | raw
 	Raw     []byte `json:"raw,omitempty"`
 	BodyLen int    `json:"body_len"`
 	Cut     int    `json:"cut"` // bytes of the body actually written (-1: all)
@@ -48,8 +48,8 @@ func genC12b(rt *rapid.T) CaseC12b {
 }
 
 type collectEmitter struct {
-	mu   sync.Mutex
-	got  []*iface.EventPubSubPayload
+	mu  sync.Mutex
+	got []*iface.EventPubSubPayload
 }
 
 func (c *collectEmitter) Emit(e *iface.EventPubSubPayload) error {
